@@ -32,7 +32,10 @@ type RTarget struct {
 	SleepMs int      `json:",omitempty"`
 	Fail    bool     `json:",omitempty"` // command exits 3 (after logging S)
 	ExecOut bool     `json:",omitempty"` // command additionally makes its (single, regular-file) output executable
-	Extra   string   `json:",omitempty"` // extra raw keyword arguments, rendered verbatim (", key=value")
+	// Visibility is the target's visibility list (nil = ["PUBLIC"]); TestOnly marks it test_only.
+	Visibility []string `json:",omitempty"`
+	TestOnly   bool     `json:",omitempty"`
+	Extra      string   `json:",omitempty"` // extra raw keyword arguments, rendered verbatim (", key=value")
 	// Requires / Provides model plz's require/provide mechanism: when a target that requires key k
 	// depends on a target that provides {k: L}, the dependency is replaced by L.
 	Requires []string          `json:",omitempty"`
@@ -78,6 +81,7 @@ func (r *Repo) Clone() *Repo {
 		tt.Srcs = append([]RSrc{}, t.Srcs...)
 		tt.Outs = append([]string{}, t.Outs...)
 		tt.Requires = append([]string{}, t.Requires...)
+		tt.Visibility = append([]string(nil), t.Visibility...)
 		if t.Provides != nil {
 			tt.Provides = map[string]string{}
 			for k, v := range t.Provides {
@@ -441,7 +445,7 @@ const shLib = `L(){ printf '%s %s\n' "$1" '@LABEL@' >> "${TMP_DIR%%/plz-out/tmp/
 	`K(){ D | LC_ALL=C tr -c 'a-z0-9' '_' | tail -c 8; }; `
 
 // DefsText is the build_defs file every package subincludes when Repo.Subinclude is set.
-const DefsText = "def vgenrule(name:str, srcs:list, outs:list, cmd:str, visibility:list, requires:list=None, provides:dict=None):\n    return genrule(name=name, srcs=srcs, outs=outs, cmd=cmd, visibility=visibility, requires=requires, provides=provides)\n"
+const DefsText = "def vgenrule(name:str, srcs:list, outs:list, cmd:str, visibility:list, requires:list=None, provides:dict=None, test_only:bool=False):\n    return genrule(name=name, srcs=srcs, outs=outs, cmd=cmd, visibility=visibility, requires=requires, provides=provides, test_only=test_only)\n"
 
 // plainPkg reports whether a package defines its rules directly (no subinclude): the packages that
 // produce the subincluded file itself.
@@ -513,13 +517,24 @@ func (r *Repo) RenderTarget(t *RTarget) string {
 	if t.Glob != "" {
 		srcExpr = "glob([" + PyQuote(t.Glob) + "], allow_empty=True) + " + srcExpr
 	}
+	vis := "[\"PUBLIC\"]"
+	if t.Visibility != nil {
+		vis = pyList(t.Visibility)
+	}
+	to := ""
+	if t.TestOnly {
+		to = ", test_only=True"
+	}
 	switch t.Kind {
 	case "text_file":
-		return fmt.Sprintf("text_file(name=%s, content=%s, out=%s, visibility=[\"PUBLIC\"]%s)\n", PyQuote(t.Name), PyQuote(t.Content), PyQuote(t.Outs[0]), t.Extra)
+		return fmt.Sprintf("text_file(name=%s, content=%s, out=%s, visibility=%s%s%s)\n", PyQuote(t.Name), PyQuote(t.Content), PyQuote(t.Outs[0]), vis, to, t.Extra)
 	case "filegroup":
-		return fmt.Sprintf("filegroup(name=%s, srcs=%s, visibility=[\"PUBLIC\"]%s)\n", PyQuote(t.Name), srcExpr, t.Extra)
+		return fmt.Sprintf("filegroup(name=%s, srcs=%s, visibility=%s%s%s)\n", PyQuote(t.Name), srcExpr, vis, to, t.Extra)
 	}
 	extra := t.Extra
+	if t.TestOnly {
+		extra += ", test_only=True"
+	}
 	if len(t.Requires) > 0 {
 		extra += ", requires=" + pyList(t.Requires)
 	}
@@ -539,7 +554,7 @@ func (r *Repo) RenderTarget(t *RTarget) string {
 	if !r.plainPkg(t.Pkg) {
 		fn = "vgenrule"
 	}
-	return fmt.Sprintf(fn+"(name=%s, srcs=%s, outs=%s, cmd=%s, visibility=[\"PUBLIC\"]%s)\n", PyQuote(t.Name), srcExpr, pyList(t.Outs), PyQuote(t.ShellCmd()), extra)
+	return fmt.Sprintf(fn+"(name=%s, srcs=%s, outs=%s, cmd=%s, visibility=%s%s)\n", PyQuote(t.Name), srcExpr, pyList(t.Outs), PyQuote(t.ShellCmd()), vis, extra)
 }
 
 // RenderBuild renders the BUILD file of a package.
@@ -571,7 +586,7 @@ func (r *Repo) TreeFiles() map[string]string {
 		m[filepath.Join(f.Pkg, f.Path)] = f.Content
 	}
 	if r.Subinclude && !r.DefsChain {
-		defs := "def vgenrule(name:str, srcs:list, outs:list, cmd:str, visibility:list, requires:list=None, provides:dict=None):\n    return genrule(name=name, srcs=srcs, outs=outs, cmd=cmd, visibility=visibility, requires=requires, provides=provides)\n"
+		defs := "def vgenrule(name:str, srcs:list, outs:list, cmd:str, visibility:list, requires:list=None, provides:dict=None, test_only:bool=False):\n    return genrule(name=name, srcs=srcs, outs=outs, cmd=cmd, visibility=visibility, requires=requires, provides=provides, test_only=test_only)\n"
 		switch r.BrokenDefs {
 		case "syntax":
 			m["defs/BUILD"] = "filegroup(name=\"defs\", srcs=[\"defs.build_defs\"], visibility=[\"PUBLIC\"])\n"
